@@ -55,6 +55,7 @@ fn main() {
         "C11" => c11::run_check(replay),
         "C12" => c12::run_check(replay),
         "C07" => c07::run_check(replay),
+        "C13" => c13::run_check(replay),
         "C14" => c14::run_check(replay),
         "C16" => c16::run(replay),
         "C17" => c17::run(replay),
